@@ -135,7 +135,9 @@ func (r snapReader) Select(string, []byte, []byte) (ledger.XMIterator, error) {
 
 // ---- contract manager -------------------------------------------------------------------------
 
-type stubRegistry struct{ m map[string]contract.KernMethod }
+type stubRegistry struct {
+	m map[string]contract.KernMethod
+}
 
 func (r *stubRegistry) RegisterKernMethod(c, m string, h contract.KernMethod) { r.m[c+"."+m] = h }
 func (r *stubRegistry) RegisterShortcut(string, string, string)               {}
